@@ -96,7 +96,9 @@ def rule_finalize_verifies(ctx: Ctx, rep: Report) -> None:
     pv = ctx.func(f"{P}._assert_partial_sigs_verify")
     rep.ob(rule, "_assert_partial_sigs_verify:refuses", any(pol is False and isinstance(t, ast.Call) and call_name(t) == "verify_" for t, pol, _ in ctx.refusals(pv)), pv.where(), "an invalid partial signature is refused")
     txt = PT.text(pv)
-    rep.ob(rule, "_assert_partial_sigs_verify:own_type", "hash_type = sig[-1]" in txt and "dsa.verify_(msg_hash, pub_key, sig[:-1])" in txt, pv.where(), "each signature is verified against the digest of the type it carries, minus that byte")
+    vxp = VX.of(pv)
+    bb: dict[str, str] = {}
+    rep.ob(rule, "_assert_partial_sigs_verify:own_type", vxp.anywhere("dsa.verify_($$m, $$pk, $$s[:-1])", bb) and (vxp.anywhere("_sig_hash_from_psbt_in($$pi, $$tx, $$i, $$s[-1])", bb) or "[-1]" in bb.get("$$m", "")), pv.where(), "each signature is verified against the digest of the type it carries, minus that byte")
 
 
 def rule_signed_then_checked(ctx: Ctx, rep: Report) -> None:
